@@ -22,11 +22,16 @@ AddTx(ty) == /\ CanAdd /\ IsGene
              /\ Cardinality({i \in DOMAIN rows : rows[i][2] = 1 /\ rows[i][3] \notin {"exon", "CDS"}}) < MaxTx
              /\ rows' = Append(rows, <<NextId, 1, ty, 1, 16, Top[6], -1>>) /\ UNCHANGED <<bio, done>>
 Parents == {i \in DOMAIN rows : i = 1 \/ (rows[i][2] = 1 /\ rows[i][3] \notin {"exon", "CDS"})}
-AddExon(p, b) == /\ CanAdd /\ IsGene /\ p \in Parents
+HasRev(p) == \E i \in DOMAIN rows : rows[i][2] = p /\ rows[i][4] > rows[i][5]
+AddExonRev(p) == /\ CanAdd /\ IsGene /\ p \in Parents
+                 /\ ~\E i \in DOMAIN rows : rows[i][2] = p /\ rows[i][3] \in {"exon", "CDS"}
+                 /\ ~\E i \in DOMAIN rows : rows[i][4] > rows[i][5]
+                 /\ rows' = Append(rows, <<NextId, p, "exon", 9, 6, rows[p][6], -1>>) /\ UNCHANGED <<bio, done>>
+AddExon(p, b) == /\ CanAdd /\ IsGene /\ p \in Parents /\ ~HasRev(p)
                  /\ ~\E i \in DOMAIN rows : rows[i][2] = p /\ rows[i][3] = "exon" /\ <<rows[i][4], rows[i][5]>> = b
                  /\ rows' = Append(rows, <<NextId, p, "exon", b[1], b[2], rows[p][6], -1>>) /\ UNCHANGED <<bio, done>>
 (* CDS rows of one parent do not overlap (a CDS that overlaps itself is refused by the interval classes) *)
-AddCds(p, b, ph) == /\ CanAdd /\ IsGene /\ p \in Parents
+AddCds(p, b, ph) == /\ CanAdd /\ IsGene /\ p \in Parents /\ ~HasRev(p)
                     /\ ~\E i \in DOMAIN rows : rows[i][2] = p /\ rows[i][3] = "CDS" /\ rows[i][4] <= b[2] /\ b[1] <= rows[i][5]
                     /\ rows' = Append(rows, <<NextId, p, "CDS", b[1], b[2], rows[p][6], ph>>) /\ UNCHANGED <<bio, done>>
 AddUnit(b, st) == /\ CanAdd /\ IsFeat
@@ -37,6 +42,7 @@ Next == \/ \E ty \in {"gene", "pseudogene", "CDS", "repeat_region"}, st \in Stra
              AddTop(ty, st, IF ty = "repeat_region" THEN "" ELSE b)
         \/ \E ty \in {"mRNA", "transcript", "tRNA", "weird"} : AddTx(ty)
         \/ \E p \in DOMAIN rows, b \in ExonPool : AddExon(p, b)
+        \/ \E p \in DOMAIN rows : AddExonRev(p)
         \/ \E p \in DOMAIN rows, b \in CdsPool, ph \in {-1, 0, 1, 2} : AddCds(p, b, ph)
         \/ \E b \in ExonPool, st \in Strands : AddUnit(b, st)
         \/ Finish
@@ -49,20 +55,21 @@ Claimed(ty) == {i \in DOMAIN rows : rows[i][3] = ty /\ (rows[i][2] = 1 \/ rows[i
 Uses(x, i) == LET tx == x[2] IN
               /\ (x[1] = rows[i][2] \/ (x[1] = 0 /\ rows[i][2] = 1))
               /\ \E k \in DOMAIN tx[IF rows[i][3] = "CDS" THEN 2 ELSE 1] : tx[IF rows[i][3] = "CDS" THEN 2 ELSE 1][k] = Blk(rows[i])
-NoRowLostOf(R) == (done /\ IsGene) => \A ty \in {"exon", "CDS"} : \A i \in Claimed(ty) :
+NoRowLostOf(R) == (done /\ IsGene /\ R[1] = "gene") => \A ty \in {"exon", "CDS"} : \A i \in Claimed(ty) :
                  Cardinality({x \in R[3] : Uses(x, i)}) = 1
 NoRowLost == NoRowLostOf(Res)
 (* negative control: a reader that keeps only the first CDS row of every transcript loses rows *)
 FirstCdsOnly(R) == <<R[1], R[2], {<<x[1], <<x[2][1], IF x[2][2] = <<>> THEN <<>> ELSE <<x[2][2][1]>>, IF x[2][3] = <<>> THEN <<>> ELSE <<x[2][3][1]>>, x[2][4]>>>> : x \in R[3]}>>
-NegNoRowLost == NoRowLostOf(IF done /\ IsGene THEN FirstCdsOnly(Res) ELSE Res)
-EveryTxHasExons == (done /\ rows[1][3] \in GeneTops) => \A tx \in Txs : Len(tx[1]) >= 1 /\ Len(tx[3]) = Len(tx[2])
-GeneNeverEmpty == (done /\ rows[1][3] \in GeneTops) => Res[1] = "gene" /\ Res[3] # {}
+NegNoRowLost == NoRowLostOf(IF done /\ IsGene /\ Res[1] = "gene" THEN FirstCdsOnly(Res) ELSE Res)
+EveryTxHasExons == (done /\ rows[1][3] \in GeneTops /\ Res[1] = "gene") => \A tx \in Txs : Len(tx[1]) >= 1 /\ Len(tx[3]) = Len(tx[2])
+GeneNeverEmpty == (done /\ rows[1][3] \in GeneTops /\ ~HasReversedExon(rows)) => Res[1] = "gene" /\ Res[3] # {}
+ReversedRowRefused == (done /\ IsGene /\ HasReversedExon(rows)) => Res[1] = "refuse"
 (* the order in which the rows below the top-level row were written is irrelevant: Parse of the rows re-written in
    identifier-preserving reversed order is the same *)
 Rewritten == <<rows[1]>> \o Reverse(Tail(rows))
 OrderFree == done => Parse(Rewritten, bio) = Res
 CdsRowsOf(x) == {i \in DOMAIN rows : rows[i][3] = "CDS" /\ (rows[i][2] = x[1] \/ (x[1] = 0 /\ rows[i][2] = 1))}
-PhaseRespected == (done /\ IsGene) => \A x \in Res[3] : LET tx == x[2] IN
+PhaseRespected == (done /\ IsGene /\ Res[1] = "gene") => \A x \in Res[3] : LET tx == x[2] IN
     (CdsRowsOf(x) # {} /\ \A i \in CdsRowsOf(x) : rows[i][7] >= 0)
        => \A k \in DOMAIN tx[2] : \E i \in CdsRowsOf(x) : Blk(rows[i]) = tx[2][k] /\ tx[3][k] = FrameOfPhase(rows[i][7])
 FeatureRefusedIffMixedStrands == (done /\ IsFeat) =>
